@@ -29,7 +29,9 @@ RULE = (
     'all decision tapes: every generated condition is replaced by [coin] (an '
     'injected built-in reading a decision tape), a `print <id>` marker '
     'precedes every statement, and for ALL 2^k tapes (k = 8, 10 thorough) '
-    'the run of the real VM must equal the reference interpreter\'s. '
+    'the run of the real VM must equal the reference interpreter\'s, and a '
+    'run that ends by itself must leave the evaluation stack empty and no '
+    'frame behind. '
     'Non-trivial = image with >= 3 conditional jumps and >= 1 routine (a); '
     '>= 4 distinct marker sequences over the tapes (b). Distinct by script.')
 ASSUMPTIONS = [
@@ -436,6 +438,21 @@ def run_tapes(acc, case, bits):
             continue
         except ref.RefBug as ex:
             raise env.HarnessError('reference: {}\n{}'.format(ex, text))
+        if diff_free_end(result):
+            machine = result.job._machine
+            left = len(machine._vm_math._eval_stack)
+            top = machine._call_stack.get_top()
+            frames_left = getattr(top, 'parent', None) is not None
+            if left or frames_left:
+                acc.fail('tapes:dangling-at-end',
+                         'with decisions {} the run ended with {} value(s) '
+                         'on the evaluation stack{}\n--- script ---\n{}'
+                         .format(''.join(map(str, tape)), left,
+                                 ' and a frame that was not left'
+                                 if frames_left else '', text),
+                         dict(payload, tape=list(tape)))
+                failed = True
+                break
         markers = tuple(e[1] for e in interp.trace
                         if e[0] == 'out' and isinstance(e[1], int)
                         and not isinstance(e[1], bool))
@@ -462,6 +479,13 @@ def run_tapes(acc, case, bits):
     acc.extra['tape_runs'] = acc.extra.get('tape_runs', 0) + 2 ** bits
     acc.extra['tape_runs_discarded'] = acc.extra.get(
         'tape_runs_discarded', 0) + discarded
+
+
+def diff_free_end(result):
+    """The run came to its end by itself: every loop and call it entered has
+    been left, so nothing may be left behind."""
+    return result.compiled and not result.aborted and \
+        not result.budget_exhausted and result.bad_pc is None
 
 
 # ---- driver ---------------------------------------------------------------------------
